@@ -20,6 +20,11 @@
 (*     whether the outer struct counts as tagged, both fills are allowed   *)
 (*   - NULL arriving in a destination field: the statement is silent;      *)
 (*     an error or a zero field are both allowed                           *)
+(*   - a slice destination that already holds k elements (pages being       *)
+(*     accumulated): the rows are mapped by the same rule; the statement   *)
+(*     does not say whether the old elements are kept (append) or dropped  *)
+(*     (replace), both are allowed; strict + fewer columns is an error all *)
+(*     the same, never a success with partially filled elements            *)
 (* The spec is a two-step machine: Next picks a destination shape, then a  *)
 (* result set; `out` is then the case with its allowed outcomes.           *)
 (***************************************************************************)
@@ -28,7 +33,8 @@ EXTENDS Integers, Sequences, FiniteSets, TLC, SequencesExt
 CONSTANTS MaxF,      \* largest number of struct fields (<= 3)
           RowCounts, \* row counts offered, e.g. {0, 1, 3}
           PtrSets,   \* "all": every subset of fields may be pointers; "few": none / first / all
-          Dests      \* subset of {"one", "vals", "ptrs"}: *T, *[]T, *[]*T
+          Dests,     \* subset of {"one", "vals", "ptrs"}: *T, *[]T, *[]*T
+          Pres       \* how many elements a slice destination may already hold, e.g. {0, 1}
 
 VARIABLES shape, picked, out
 vars == <<shape, picked, out>>
@@ -56,13 +62,13 @@ ColLists(nf, tg, e) ==
 
 \* nf counts the LEAF fields (an embedded struct is flattened); the last embn of them live inside
 \* the embedded struct (embn = 0 iff emb = "none"), so the struct has nf - embn + 1 top-level fields
-StructCase(nf, tg, e, en, ps, d, cs, n, nl, st) ==
+StructCase(nf, tg, e, en, ps, d, cs, n, nl, st, pre) ==
   [prim |-> FALSE, nf |-> nf, tagged |-> tg, emb |-> e, embn |-> en, ptrs |-> ps, dest |-> d,
-   cols |-> cs, nrows |-> n, null |-> nl, strict |-> st]
+   cols |-> cs, nrows |-> n, null |-> nl, strict |-> st, pre |-> pre]
 
-PrimCase(d, cid, n, nl, st) ==
+PrimCase(d, cid, n, nl, st, pre) ==
   [prim |-> TRUE, nf |-> 1, tagged |-> FALSE, emb |-> "none", embn |-> 0, ptrs |-> {}, dest |-> d,
-   cols |-> <<cid>>, nrows |-> n, null |-> nl, strict |-> st]
+   cols |-> <<cid>>, nrows |-> n, null |-> nl, strict |-> st, pre |-> pre]
 
 (* ---------------------------------------------------------------- the mapping *)
 
@@ -99,18 +105,26 @@ Fills(c) ==
 
 Fewer(c) == ~c.prim /\ Len(c.cols) < c.nf
 
-Allowed(c) ==
+\* the k elements a slice destination holds before the query: element k, leaf field i = 100*k + i
+PreRows(c) == [k \in 1..c.pre |-> [i \in 1..c.nf |-> 100 * k + i]]
+\* a successful outcome with the old elements kept in front, or dropped
+WithPre(c, o) ==
+  IF o.k # "rows" \/ c.pre = 0 THEN {o} ELSE {Outcome("rows", PreRows(c) \o o.rows), o}
+
+AllowedFresh(c) ==
   IF c.dest = "one" /\ c.nrows = 0 THEN {NotFoundOut}
   ELSE IF c.strict /\ Fewer(c) THEN
        \* with no row at all there is no struct to fill: an empty result is not excluded
        (IF c.nrows = 0 THEN {ErrorOut, Outcome("rows", <<>>)} ELSE {ErrorOut})
   ELSE UNION {FillOutcomes(c, b) : b \in Fills(c)}
 
+Allowed(c) == UNION {WithPre(c, o) : o \in AllowedFresh(c)}
+
 RowData(c) == [r \in 1..c.nrows |-> [j \in 1..Len(c.cols) |-> At(c, r, j)]]
 
 Observation(c) ==
   [op |-> "query", prim |-> c.prim, nf |-> c.nf, tagged |-> c.tagged, emb |-> c.emb, embn |-> c.embn, ptrs |-> c.ptrs,
-   dest |-> c.dest, cols |-> c.cols, data |-> RowData(c), strict |-> c.strict,
+   dest |-> c.dest, cols |-> c.cols, data |-> RowData(c), strict |-> c.strict, pre |-> c.pre,
    allow |-> Allowed(c)]
 
 (* ---------------------------------------------------------------- machine *)
@@ -125,15 +139,17 @@ PickShape ==
   /\ shape = NoShape
   /\ UNCHANGED picked
   /\ out' = [op |-> "shape"]
-  /\ \/ \E nf \in 1..MaxF, tg \in BOOLEAN, e \in {"none", "val", "ptr"}, d \in Dests, st \in BOOLEAN, n \in RowCounts :
+  /\ \/ \E nf \in 1..MaxF, tg \in BOOLEAN, e \in {"none", "val", "ptr"}, d \in Dests, st \in BOOLEAN, n \in RowCounts, pre \in Pres :
            /\ (e # "none" => nf >= 2)
+           /\ (d = "one" => pre = 0)
            /\ \E ps \in PtrChoices(nf), en \in 0..2 :
                  /\ (e = "none" <=> en = 0) /\ en <= nf
                  /\ shape' = [prim |-> FALSE, nf |-> nf, tagged |-> tg, emb |-> e, embn |-> en, ptrs |-> ps,
-                              dest |-> d, nrows |-> n, strict |-> st]
-     \/ \E d \in Dests, n \in RowCounts, st \in BOOLEAN :
-           shape' = [prim |-> TRUE, nf |-> 1, tagged |-> FALSE, emb |-> "none", embn |-> 0, ptrs |-> {}, dest |-> d,
-                     nrows |-> n, strict |-> st]
+                              dest |-> d, nrows |-> n, strict |-> st, pre |-> pre]
+     \/ \E d \in Dests, n \in RowCounts, st \in BOOLEAN, pre \in Pres :
+           /\ (d = "one" => pre = 0)
+           /\ shape' = [prim |-> TRUE, nf |-> 1, tagged |-> FALSE, emb |-> "none", embn |-> 0, ptrs |-> {},
+                        dest |-> d, nrows |-> n, strict |-> st, pre |-> pre]
 
 PickResult ==
   /\ shape # NoShape /\ ~picked
@@ -141,11 +157,11 @@ PickResult ==
   /\ UNCHANGED shape
   /\ IF shape.prim
        THEN \E cid \in 1..3 : \E nl \in 0..(IF shape.nrows = 0 THEN 0 ELSE 1) :
-              out' = Observation(PrimCase(shape.dest, cid, shape.nrows, nl, shape.strict))
+              out' = Observation(PrimCase(shape.dest, cid, shape.nrows, nl, shape.strict, shape.pre))
        ELSE \E cs \in ColLists(shape.nf, shape.tagged, shape.emb) :
               \E nl \in 0..(IF shape.nrows = 0 THEN 0 ELSE Len(cs)) :
                  out' = Observation(StructCase(shape.nf, shape.tagged, shape.emb, shape.embn, shape.ptrs, shape.dest,
-                                               cs, shape.nrows, nl, shape.strict))
+                                               cs, shape.nrows, nl, shape.strict, shape.pre))
 
 Next == PickShape \/ PickResult
 
@@ -157,7 +173,7 @@ Case == [prim |-> out.prim, nf |-> out.nf, tagged |-> out.tagged, emb |-> out.em
          dest |-> out.dest, cols |-> out.cols, nrows |-> Len(out.data),
          null |-> (IF \E j \in 1..Len(out.cols) : Len(out.data) > 0 /\ out.data[1][j] = 0
                    THEN CHOOSE j \in 1..Len(out.cols) : out.data[1][j] = 0 ELSE 0),
-         strict |-> out.strict]
+         strict |-> out.strict, pre |-> out.pre]
 
 \* the same result set with its columns sorted by id
 SortedCols(c) == SortSeq(c.cols, <)
@@ -192,12 +208,17 @@ StrictCountsLeafFields ==
          /\ Len(out.cols) >= out.nf - out.embn + 1 /\ Len(out.cols) < out.nf
      => out.allow = {ErrorOut}
 
+\* what a slice already holds never changes the kind of outcome: in particular strict + fewer
+\* columns stays an error for a destination that is not empty
+PrefilledSameVerdict ==
+  picked => {o.k : o \in out.allow} = {o.k : o \in Allowed([Case EXCEPT !.pre = 0])}
+
 EmptyIsNotFound ==
   picked /\ out.dest = "one" /\ Len(out.data) = 0 => out.allow = {NotFoundOut}
 
 \* a successful outcome never shows a value in a field that its column did not deliver
 FieldsComeFromTheirColumns ==
-  picked /\ ~out.prim /\ out.tagged /\ out.emb = "none" =>
+  picked /\ ~out.prim /\ out.tagged /\ out.emb = "none" /\ out.pre = 0 =>
      \A o \in out.allow : o.k = "rows" =>
         \A r \in 1..Len(o.rows), i \in 1..out.nf : o.rows[r][i] \in {0, Cell(i, r)}
 
